@@ -2,7 +2,7 @@
    order-independent.  Property theorems only; each is closed by [exact] of a
    lemma proved in C14/Lemmas.v or C14/SmallScope.v and followed by its assumptions. *)
 From Coq Require Import ZArith List Bool.
-From V Require Import C14.Model C14.Laws C14.Lemmas C14.Scratch C14.Recover.
+From V Require Import C14.Model C14.Laws C14.LawsPlace C14.Lemmas C14.Scratch C14.Recover C14.Audit C14.Compose.
 From Coq Require Import Permutation.
 Import ListNotations.
 Open Scope Z_scope.
@@ -44,10 +44,74 @@ Theorem C14_search_root_with_allocation : forall hn start limit a r,
 Proof. exact search_root_with_allocation. Qed.
 Print Assumptions C14_search_root_with_allocation.
 
-Theorem C14_allocated_hypernode_is_lca : forall hn prev chosen,
-  new_allocated hn prev chosen = get_lca hn prev (Some chosen).
-Proof. exact allocated_hypernode_is_lca. Qed.
-Print Assumptions C14_allocated_hypernode_is_lca.
+(* what the code records as AllocatedHyperNode (allocate.go:525,645; recorder.go:66,79):
+   LCA(previous allocation, the HyperNode DOMAIN chosen by the gradient) — the lowest common
+   ancestor-or-self of those two.  It holds the placements (law 109) but is in general above
+   the LCA of the nodes actually bound: the property text's "recorded = LCA of the placements"
+   is refuted below (finding D11) *)
+Theorem C14_recorded_is_lca_of_domains : forall hn p c r,
+  new_allocated hn (Some p) c = Some r ->
+  match r with
+  | Some x => anc (parent_of hn) p x /\ anc (parent_of hn) c x /\
+              forall y, anc (parent_of hn) p y -> anc (parent_of hn) c y -> anc (parent_of hn) x y
+  | None => forall y, anc (parent_of hn) p y -> anc (parent_of hn) c y -> False
+  end.
+Proof. exact recorded_is_lca_of_domains. Qed.
+Print Assumptions C14_recorded_is_lca_of_domains.
+
+Theorem C14_recorded_is_lca_of_placements_refuted :
+  let s := scratch (mkEnv [] []) [mkObj 1 1 [MNode 1]; mkObj 2 1 [MNode 2]; mkObj 3 2 [MHyper 1; MHyper 2]]%positive in
+  let hn := add_top s in
+  new_allocated hn None 3%positive = Some (Some 3%positive) /\
+  real_get s 1 = [1%positive] /\ real_get s 3 = [1; 2]%positive /\
+  tier_of hn 1%positive = Some 1 /\ tier_of hn 3%positive = Some 2.
+Proof. exact recorded_is_lca_of_placements_refuted. Qed.
+Print Assumptions C14_recorded_is_lca_of_placements_refuted.
+
+(* --- placement composed with the view (any forest built leaf-first; top_name is not a HyperNode
+   name): every HyperNode offered to a hard-mode job has tier <= limit and its leaf set lies in
+   the leaf set of the HyperNode the search started from; with a prior allocation a there is ONE
+   HyperNode H of tier <= limit whose leaf set holds the nodes of the offered HyperNode and the
+   nodes of a.  (allocate restricts the candidate nodes of a try to that leaf set — allocate.go,
+   not modelled: laws 108/109 on real traces.) --- *)
+Theorem C14_gradient_on_forest_no_allocation : forall e P, leaf_first P -> find_obj P top_name = None ->
+  forall start limit l x t, start <> top_name ->
+  gradient (add_top (scratch e P)) start limit None = GOk l -> In (x, t) l ->
+  t <= limit /\ tier_of (add_top (scratch e P)) x = Some t /\
+  forall n, In n (real_get (scratch e P) x) -> In n (real_get (scratch e P) start).
+Proof. exact gradient_on_forest_no_allocation. Qed.
+Print Assumptions C14_gradient_on_forest_no_allocation.
+
+Theorem C14_gradient_on_forest_with_allocation : forall e P, leaf_first P -> find_obj P top_name = None ->
+  forall start limit a l x t,
+  gradient (add_top (scratch e P)) start limit (Some a) = GOk l -> In (x, t) l ->
+  t <= limit /\
+  exists H tH, tier_of (add_top (scratch e P)) H = Some tH /\ tH <= limit /\
+    (H = top_name \/
+     ((forall n, In n (real_get (scratch e P) x) -> In n (real_get (scratch e P) H)) /\
+      (forall n, In n (real_get (scratch e P) a) -> In n (real_get (scratch e P) H)))).
+Proof. exact gradient_on_forest_with_allocation. Qed.
+Print Assumptions C14_gradient_on_forest_with_allocation.
+
+(* --- the placement laws mean the clause (soundness of the boolean checkers) --- *)
+Theorem C14_law_placement_sound : forall hn real limit recorded nodes,
+  law_placement hn real limit recorded nodes = true ->
+  nodes = [] \/
+  exists h i l, In (h, i) hn /\ i_tier i <= limit /\ aget h real = Some l /\ forall n, In n nodes -> In n l.
+Proof. exact law_placement_sound. Qed.
+Print Assumptions C14_law_placement_sound.
+
+Theorem C14_law_recorded_sound : forall hn real limit r nodes,
+  law_recorded hn real limit (Some r) nodes = true -> nodes <> [] ->
+  (exists i, aget r hn = Some i /\ i_tier i <= limit) /\
+  exists l, aget r real = Some l /\ forall n, In n nodes -> In n l.
+Proof. exact law_recorded_sound. Qed.
+Print Assumptions C14_law_recorded_sound.
+
+Theorem C14_law_not_ready_no_bind_sound : forall nr k,
+  law_not_ready_no_bind nr k = true -> nr = true -> k = 0.
+Proof. exact law_not_ready_no_bind_sound. Qed.
+Print Assumptions C14_law_not_ready_no_bind_sound.
 
 (* --- recovery of the AllocatedHyperNode at session open (recoverAllocatedHyperNode): the
    HyperNode recovered for a sub-job holds every node that hosts one of its tasks in an
@@ -88,7 +152,7 @@ Print Assumptions C14_rebuild_from_scratch_spec_leaf_first.
 
 (* order-independence on that class: any two leaf-first arrival orders of the same objects
    give the same entries, leaf sets, tier sets, and both are Ready *)
-Theorem C14_incremental_equals_scratch_leaf_first : forall e P Q,
+Theorem C14_leaf_first_arrival_order_independent : forall e P Q,
   leaf_first P -> leaf_first Q -> Permutation P Q ->
   let s := scratch e P in let s' := scratch e Q in
   (forall k, aget k (s_hn s) = aget k (s_hn s')) /\
@@ -97,13 +161,15 @@ Theorem C14_incremental_equals_scratch_leaf_first : forall e P Q,
                In k (match zget t (s_tier s') with Some l => l | None => [] end)) /\
   s_ready s = true /\ s_ready s' = true.
 Proof. exact leaf_first_order_independent. Qed.
-Print Assumptions C14_incremental_equals_scratch_leaf_first.
+Print Assumptions C14_leaf_first_arrival_order_independent.
 
 (* --- the view: the small-scope order-independence theorems live in Props/C14SmallScope.v
    (thorough tier only: ~20 min of clean Coq build) --- *)
 
 (* --- errors are reported (all states, all inputs): a failing UpdateHyperNode /
-   DeleteHyperNode leaves Ready = false; the two error sources of BuildHyperNodeCache --- *)
+   DeleteHyperNode leaves Ready = false (this includes model-fuel exhaustion, which never
+   occurs on explored inputs); the one-step facts about the two error sources of
+   BuildHyperNodeCache are lemmas (Lemmas.v build_cycle_errors, add_child_second_parent_errors) --- *)
 Theorem C14_upd_error_not_ready : forall e s o s', upd e s o = (s', true) -> s_ready s' = false.
 Proof. exact upd_error_not_ready. Qed.
 Print Assumptions C14_upd_error_not_ready.
@@ -112,16 +178,9 @@ Theorem C14_del_error_not_ready : forall e s nm s', del e s nm = (s', true) -> s
 Proof. exact del_error_not_ready. Qed.
 Print Assumptions C14_del_error_not_ready.
 
-Theorem C14_build_cycle_errors : forall f e s nm processed chain ancset,
-  pmem nm chain = true -> build (S f) e s nm processed chain ancset = (s, processed, true).
-Proof. exact build_cycle_errors. Qed.
-Print Assumptions C14_build_cycle_errors.
 
-Theorem C14_add_child_second_parent_errors : forall s parent c i p,
-  aget c (s_hn s) = Some i -> i_parent i = Some p -> p <> parent ->
-  add_child s parent c = (s, true).
-Proof. exact add_child_second_parent_errors. Qed.
-Print Assumptions C14_add_child_second_parent_errors.
+
+
 
 (* --- the code before the repairs violated the property (run_prefix); the repaired code
    (run) does not, on the same inputs --- *)
@@ -198,6 +257,69 @@ Theorem C14_d2a_label_leaf_stale_refuted :
   real_get (snd (run_round4 e evs)) 1 = [1%positive] /\ real_get (snd (run e evs)) 1 = [].
 Proof. exact d2a_label_leaf_stale_refuted. Qed.
 Print Assumptions C14_d2a_label_leaf_stale_refuted.
+
+(* --- bad membership => not ready, where it holds --- *)
+(* (i) HISTORY INVARIANT, no hypothesis on the objects or the events: a view that reports Ready
+   has no failed rebuild outstanding; so from the failing call on (C14_upd_error_not_ready) the
+   view stays not ready until every rebuild that failed on a cycle / double claim has succeeded
+   again or its HyperNode is gone *)
+Theorem C14_ready_implies_no_failed_rebuild : forall evs e,
+  let s := snd (run e evs) in s_ready s = true -> s_failed s = [].
+Proof. exact ready_implies_no_failed_rebuild. Qed.
+Print Assumptions C14_ready_implies_no_failed_rebuild.
+
+(* (ii) a second claim of an EXISTING member is refused: on the view of any forest P, a new
+   object listing a HyperNode c that already has a parent p makes UpdateHyperNode fail and
+   the view not ready (any tiers; the members listed before c are free) *)
+Theorem C14_second_claim_not_ready : forall e s P nm t ms1 c rest p,
+  Rep s P ->
+  find_obj P nm = None ->
+  Forall (fun m => match m with
+                   | MNode _ => True | MSel _ _ => False
+                   | MHyper c' => c' <> nm /\ find_obj P c' <> None /\ spec_parent P c' = None
+                   end) ms1 ->
+  c <> nm -> find_obj P c <> None -> spec_parent P c = Some p -> p <> nm ->
+  ~ In (MHyper c) ms1 ->
+  exists s', upd e s (mkObj nm t (ms1 ++ MHyper c :: rest)) = (s', true) /\ s_ready s' = false.
+Proof. exact second_claim_not_ready. Qed.
+Print Assumptions C14_second_claim_not_ready.
+
+(* --- what the boolean view checker of the small-scope theorems and of law 101 means --- *)
+Theorem C14_view_matches_spec_sound : forall e objs v,
+  view_matches_spec e objs v = true ->
+  (forall o, In o objs -> exists i,
+      aget (o_name o) (s_hn v) = Some i /\
+      i_tier i = o_tier o /\
+      i_parent i = spec_parent objs (o_name o) /\
+      real_only objs (i_children i) = real_only objs (hchildren (o_members o)) /\
+      (forall c, In c (i_children i) -> pmem c (hchildren (o_members o)) = true /\ aget c (s_hn v) <> None) /\
+      real_get v (o_name o) = spec_real (S (length objs)) e objs (o_name o)) /\
+  s_tier v = spec_tiers objs /\
+  (forall k l, In (k, l) (s_real v) -> pmem k (obj_names objs) = true \/ l = []).
+Proof. exact view_matches_spec_sound. Qed.
+Print Assumptions C14_view_matches_spec_sound.
+
+(* --- the VIEW clause (order-independence) is false on the code in two classes: known
+   findings D2 (mixed selector / HyperNode members) and D7 (tier inversion) --- *)
+Theorem C14_view_order_independence_refuted_mixed_members :
+  let e0 := mkEnv [] [(1%positive, [1%positive])] in
+  let objs := [mkObj 2 1 []; mkObj 1 2 [MSel false 1; MHyper 2]]%positive in
+  let incr := run e0 (map EUpd objs ++ [ENodeAdd 1%positive]) in
+  real_get (snd incr) 1 = [] /\
+  real_get (scratch (fst incr) objs) 1 = [1%positive] /\
+  s_ready (snd incr) = true.
+Proof. exact view_order_independence_refuted_mixed_members. Qed.
+Print Assumptions C14_view_order_independence_refuted_mixed_members.
+
+Theorem C14_view_order_independence_refuted_tier_inversion :
+  let e0 := mkEnv [] [] in
+  let evs := [EUpd (mkObj 3 1 [MHyper 1]); EDel 1; EUpd (mkObj 1 1 []); EUpd (mkObj 1 0 [])]%positive in
+  let objs := [mkObj 1 0 []; mkObj 3 1 [MHyper 1]]%positive in
+  forest_ok objs = true /\
+  (exists i, aget 1%positive (s_hn (snd (run e0 evs))) = Some i /\ i_parent i = None) /\
+  (exists i, aget 1%positive (s_hn (scratch e0 objs)) = Some i /\ i_parent i = Some 3%positive).
+Proof. exact view_order_independence_refuted_tier_inversion. Qed.
+Print Assumptions C14_view_order_independence_refuted_tier_inversion.
 
 (* --- still refuted at full strength on the repaired code (known finding D7): a cycle between
    two HyperNodes of the same tier stays unreported --- *)
